@@ -168,6 +168,8 @@ def run_case(spec):
         for v in versions[1:]:
             if rk.random() < .3:
                 v['kill'] = rk.randint(0, 7)
+            if rk.random() < .25:
+                v['older_mtime'] = True
     d = tempfile.mkdtemp(prefix='verif-c12-')
     nv = len(res.viol)
     try:
@@ -229,6 +231,14 @@ def _chain(versions, d, res):
             labels.append(lab)
             with open(path, 'w') as f:
                 f.write(render(ver['model']))
+            if ver.get('older_mtime'):
+                # the file is put back from a backup / written by rsync -t: its modification time is OLDER than that
+                # of the version the daemon read last; what counts is the content
+                try:
+                    os.utime(path, (1.0e9 + i, 1.0e9 + i - 1000 * i))
+                    res.obs['versions_with_an_older_mtime'] += 1
+                except OSError:
+                    pass
             new_cfg = {x['name']: x for x in get_config(path)['watchers']}
             w.activate()
             k = w.kernel
